@@ -60,8 +60,8 @@ def Spec.step (c : Config) : Spec → In → Out → Option Spec
       else some (.sending v tog k)
     else none
   | .sent v tog, i, o =>
-    if !o.valid && o.complete == i.ack && o.toggle == tog then
-      if i.ack then some (.fresh (!tog))
+    if !o.valid && o.complete == ackTaken c i && o.toggle == tog then
+      if ackTaken c i then some (.fresh (!tog))
       else if i.newToken then some (.armed v tog) else some (.sent v tog)
     else none
   | .armed v tog, i, o =>
@@ -171,11 +171,11 @@ theorem step_refines (c : Config) (hw : 1 ≤ c.width) (s : State) (i : In) (hs 
       · simp [step, absOf, Spec.step, hrd, hl, hg, Inv]; omega
     · simp [step, absOf, Spec.step, hrd, hg, Inv]; omega
   · -- WAIT_FOR_ACK
-    by_cases ha : i.ack = true
+    by_cases ha : ackTaken c i = true
     · have hnt : i.newToken = false := by
         cases h : i.newToken
         · rfl
-        · exact absurd ⟨ha, h⟩ hi
+        · exact absurd ⟨by simp [ackTaken] at ha; exact ha.1, h⟩ hi
       simp [step, absOf, Spec.step, ha, hnt, Inv]
     · by_cases hnt : i.newToken = true
       · simp [step, absOf, Spec.step, ha, hnt, Inv]
@@ -199,7 +199,9 @@ input history (token fields, requests, ACKs, `tx.ready` stalls, a signal that ch
 in which `ack` and `new_token` never coincide, the endpoint's trace from reset is accepted by the
 host-side specification: each fresh poll is answered with the serialisation of the signal value of
 the request cycle, a retry repeats value and toggle, `status_read_complete` pulses exactly on an ACK
-that follows the packet before any new token, and the toggle flips exactly then. -/
+that follows the packet before any new token *while the tokenizer still shows an IN token for this
+endpoint* (an ACK belonging to another device's transaction is not taken), and the toggle flips
+exactly then. -/
 theorem poll_returns_sampled_value (c : Config) (hw : 1 ≤ c.width) (ins : List In)
     (hl : LegalEnv ins) : accepts c (.fresh false) (trace c init ins) = true :=
   accepts_from c hw init (inv_init c) ins hl
@@ -209,10 +211,10 @@ the toggle only on an ACK in WAIT_FOR_ACK — so everything sent between a fresh
 (first transmission and every retry) carries the same value and the same toggle. -/
 theorem retry_same_value_and_toggle (c : Config) (s : State) (i : In) :
     ((step c s i).1.latched ≠ s.latched → s.fsm = .idle ∧ packetRequested c i = true) ∧
-    ((step c s i).1.toggle ≠ s.toggle → s.fsm = .waitAck ∧ i.ack = true) := by
+    ((step c s i).1.toggle ≠ s.toggle → s.fsm = .waitAck ∧ i.ack = true ∧ targeting c i = true) := by
   rcases s with ⟨fsm, latched, sent, toggle⟩
-  cases fsm <;> simp [step] <;> (try split) <;> simp_all <;>
-    (cases i.ack <;> cases i.newToken <;> simp_all)
+  cases fsm <;> simp [step, ackTaken] <;> (try split) <;> simp_all <;>
+    (cases i.ack <;> cases i.newToken <;> cases targeting c i <;> simp_all)
 
 /-- Number of `status_read_complete` strobes in a trace. -/
 def completes : List (In × Out) → Nat
@@ -221,16 +223,16 @@ def completes : List (In × Out) → Nat
 
 theorem toggle_parity_from (c : Config) (s : State) (ins : List In) :
     ((runState c s ins).toggle = (s.toggle != (completes (trace c s ins) % 2 == 1))) ∧
-    (∀ io ∈ trace c s ins, io.2.complete = true → io.1.ack = true) := by
+    (∀ io ∈ trace c s ins, io.2.complete = true → io.1.ack = true ∧ targeting c io.1 = true) := by
   induction ins generalizing s with
   | nil => simp [runState, trace, completes]
   | cons i is ih =>
     obtain ⟨h1, h2⟩ := ih (step c s i).1
     have hstep : (step c s i).1.toggle = (s.toggle != (step c s i).2.complete) ∧
-        ((step c s i).2.complete = true → i.ack = true) := by
+        ((step c s i).2.complete = true → i.ack = true ∧ targeting c i = true) := by
       rcases s with ⟨fsm, latched, sent, toggle⟩
-      cases fsm <;> simp [step] <;> (try split) <;> simp_all <;>
-        (cases i.ack <;> cases i.newToken <;> simp_all)
+      cases fsm <;> simp [step, ackTaken] <;> (try split) <;> simp_all <;>
+        (cases i.ack <;> cases i.newToken <;> cases targeting c i <;> simp_all)
     have hm : ∀ n : Nat, ((1 + n) % 2 == 1) = !(n % 2 == 1) := by
       intro n
       rcases Nat.mod_two_eq_zero_or_one n with h | h <;> simp [Nat.add_mod, h]
@@ -244,11 +246,12 @@ theorem toggle_parity_from (c : Config) (s : State) (ins : List In) :
       · exact h2 io hio
 
 /-- For every history (no environment assumption): the toggle after the history is the parity of
-the number of `status_read_complete` strobes, and each strobe coincides with a host ACK — the toggle
+the number of `status_read_complete` strobes, and each strobe coincides with a host ACK received while the tokenizer shows an IN token for this
+endpoint — the toggle
 advances only on an ACK, once per acknowledged poll. -/
 theorem toggle_advances_only_on_ack (c : Config) (ins : List In) :
     ((runState c init ins).toggle = (completes (trace c init ins) % 2 == 1)) ∧
-    (∀ io ∈ trace c init ins, io.2.complete = true → io.1.ack = true) := by
+    (∀ io ∈ trace c init ins, io.2.complete = true → io.1.ack = true ∧ targeting c io.1 = true) := by
   have h := toggle_parity_from c init ins
   simpa [init] using h
 
